@@ -69,7 +69,10 @@ Patterns == <<
   Pat(FALSE, FALSE, <<At(Cls(98, 98), 2, -1)>>),                          \*  9  b{2,}
   Pat(TRUE,  TRUE,  <<At(Cls(97, 97), 0, 1), At(Cls(98, 98), 1, -1), At(Cls(99, 99), 1, 2)>>),  \* 10  ^a?b+c{1,2}$
   Pat(TRUE,  TRUE,  <<At(Cls(65, 90), 1, 1), At(az, 1, 3)>>),             \* 11  ^[A-Z][a-z]{1,3}$
-  Pat(FALSE, FALSE, <<At(dg, 1, -1)>>) >>                                 \* 12  [0-9]+
+  Pat(FALSE, FALSE, <<At(dg, 1, -1)>>),                                   \* 12  [0-9]+
+  Pat(TRUE,  TRUE,  <<Lit(97), Lit(98), At(dg, 1, -1)>>),                 \* 13  ^ab[0-9]+$       literals + one repetition
+  Pat(TRUE,  TRUE,  <<At(Cls(97, 97), 1, 2), At(Cls(98, 98), 0, 2)>>),    \* 14  ^a{1,2}b{0,2}$   several bounded repetitions
+  Pat(TRUE,  TRUE,  <<Lit(97), Lit(98), At(dg, 0, -1)>>) >>               \* 15  ^ab[0-9]*$       literals use up the whole maxLength
 (* patterns outside the oracle's catalogue (word boundaries, \A..\Z): the match itself is "U", the length keywords next to them are still judged *)
 OPat(src) == [k |-> "opaque", src |-> src]
 PatWordBoth == OPat(<<92, 98, 91, 97, 45, 122, 93, 43, 92, 98>>)        \* \b[a-z]+\b
@@ -119,6 +122,16 @@ ObjExtra == << Ty("object") @@ [required |-> <<ka>>], Ty("object") @@ [addProps 
                Ty("object") @@ [props |-> [k |-> <<ka, kb>>, v |-> <<Ty("integer"), Ty("string")>>], maxProperties |-> 1],
                Ty("object") @@ [props |-> [k |-> <<ka>>, v |-> <<Ty("object") @@ [props |-> [k |-> <<kb>>, v |-> <<Ty("integer") @@ [minimum |-> 1]>>], required |-> <<kb>>]>>], required |-> <<ka>>],
                Ty("object") @@ [props |-> [k |-> <<ka>>, v |-> <<Ty("array") @@ [items |-> Ty("integer") @@ [minimum |-> 0], minItems |-> 1]>>]] >>
+kc == <<99>>
+kd == <<100>>
+(* shapes that steer the boundary generator through otherwise unvisited dispatch branches: boolean sub-schemas (3.1), a property fixed by
+   const, arrays of objects, objects with three optional properties (subset selection) *)
+ShapeSchemas31 == << Ty("object") @@ [props |-> [k |-> <<ka, kb>>, v |-> <<[sk |-> "true"], Ty("integer")>>], required |-> <<ka>>],
+                     Ty("array") @@ [items |-> [sk |-> "true"], minItems |-> 1],
+                     Ty("object") @@ [props |-> [k |-> <<ka, kb>>, v |-> <<Ty("string") @@ [const |-> Sv(<<120>>)], Ty("integer") @@ [minimum |-> 0]>>], required |-> <<ka, kb>>] >>
+ShapeSchemas == << Ty("array") @@ [items |-> Ty("object") @@ [props |-> [k |-> <<ka>>, v |-> <<Ty("integer") @@ [minimum |-> 0, maximum |-> 3]>>], required |-> <<ka>>], minItems |-> 1],
+                   Ty("object") @@ [props |-> [k |-> <<ka, kb, kc, kd>>, v |-> <<Ty("integer"), Ty("string"), Ty("boolean"), Ty("integer") @@ [minimum |-> 1]>>], required |-> <<ka>>],
+                   Ty("object") @@ [props |-> [k |-> <<ka, kb, kc>>, v |-> <<Ty("integer"), Ty("string") @@ [minLength |-> 1], Ty("boolean")>>]] >>
 RO(s) == s @@ [readOnly |-> TRUE]
 WO(s) == s @@ [writeOnly |-> TRUE]
 ReadOnlySchemas ==
@@ -165,6 +178,8 @@ IsSchemaDesc(x) ==      \* x is a member of the schema family  (disjunction of h
   \/ \E d \in RichD(D3), j \in DOMAIN NotSchemas : x = D("combinator", d, NotSchemas[j])
   \/ Rich /\ \E a \in DOMAIN CombLeaves, b \in DOMAIN CombLeaves : x = D("combinator", "2.0", Comb("allOf", a, b))
   \/ \E d \in AllD, j \in DOMAIN RefSchemas : x = DR("ref", d, RefSchemas[j])
+  \/ \E j \in DOMAIN ShapeSchemas31 : x = D("shape", "3.1", ShapeSchemas31[j])
+  \/ \E d \in AllD, j \in DOMAIN ShapeSchemas : x = D("shape", d, ShapeSchemas[j])
 
 (* ------------------------------------------------------------------------- *)
 (* Operation descriptors: per location <= 2 parameters, body alternatives    *)
@@ -207,20 +222,26 @@ BodyPool == << Ty("object") @@ [props |-> [k |-> <<ka, kb>>, v |-> <<Ty("integer
                Ty("string") @@ [pattern |-> PatWordBoth, maxLength |-> 5],    \* 11
                Ty("number"),                                             \* 12  every integer is a number: type negation must not yield integers
                Ty("number") @@ [minimum |-> 0],                          \* 13
-               Ty("object") @@ [props |-> [k |-> <<ka, kb>>, v |-> <<RO(Ty("integer")), Ty("string") @@ [minLength |-> 1]>>], required |-> <<ka, kb>>] >>   \* 14  readOnly AND required
+               Ty("object") @@ [props |-> [k |-> <<ka, kb>>, v |-> <<RO(Ty("integer")), Ty("string") @@ [minLength |-> 1]>>], required |-> <<ka, kb>>],   \* 14  readOnly AND required
+               S0 @@ [props |-> [k |-> <<ka>>, v |-> <<Ty("integer") @@ [minimum |-> 0]>>]],            \* 15  properties without type
+               Ty("array") @@ [items |-> S0],                                \* 16  items that accept everything
+               Ty("integer") @@ [minimum |-> 1, exclMin |-> TRUE],          \* 17  a keyword with a dependency (draft-4 exclusiveMinimum needs minimum)
+               Ty("array") >>                                               \* 18  array without items
 Bd(media, bi, req) == [media |-> media, schema |-> BodyPool[bi], required |-> req]
 MJson == "application/json"
 MText == "text/plain"
 (* parameter / body sets are written as index tuples: <<>>, <<req, leaf>> or <<req, leaf, leaf2>> (second one optional) *)
 LeafIdx(loc) == IF Rich THEN (IF loc = "query" THEN 1..16 ELSE {1, 2, 3, 4, 5, 6, 9, 12, 13, 14, 15}) ELSE (IF loc = "query" THEN {1, 2, 3, 4, 5, 6, 10, 11, 13, 14} ELSE {1, 2, 5, 6, 13})
-QueryIdx == {<<0, 0, 0>>} \cup {<<r, a, 0>> : r \in {1, 2}, a \in LeafIdx("query")} \cup {<<r, a, b>> : r \in {1, 2}, a \in LeafIdx("query"), b \in {1, 2, 6}}
+QueryIdx == {<<0, 0, 0>>} \cup {<<r, a, 0>> : r \in {1, 2}, a \in LeafIdx("query")}
+            \cup {<<r, a, b>> : r \in {1, 2}, a \in (IF Rich THEN LeafIdx("query") ELSE {1, 2, 5, 6}), b \in {1, 2, 6}}
 PathIdx == {<<0, 0, 0>>} \cup {<<2, a, 0>> : a \in LeafIdx("path")} \cup {<<2, a, b>> : a \in {1, 6}, b \in {2, 5}}
 HeaderIdx == {<<0, 0, 0>>} \cup {<<r, a, 0>> : r \in {1, 2}, a \in LeafIdx("header")} \cup {<<2, a, b>> : a \in {1, 6}, b \in {2, 6}}
 CookieIdx == {<<0, 0, 0>>} \cup {<<r, a, 0>> : r \in {1, 2}, a \in {1, 2, 6}}
 MkParams(loc, n1, n2, x) ==      \* x = <<0 none | 1 optional | 2 required, leaf index, second leaf index or 0>>
   IF x[1] = 0 THEN <<>>
   ELSE <<P(loc, n1, x[1] = 2, x[2])>> \o (IF x[3] = 0 THEN <<>> ELSE <<P(loc, n2, loc = "path", x[3])>>)
-BodyIdxSet == {<<0, 0, 0>>} \cup {<<r, b, 0>> : r \in {1, 2}, b \in (IF Rich THEN 1..13 ELSE {1, 2, 3, 4, 5, 8, 9, 11, 12})}
+BodyIdxSet == {<<0, 0, 0>>} \cup {<<r, b, 0>> : r \in {1, 2}, b \in (IF Rich THEN (1..13) \cup (15..18) ELSE {1, 2, 3, 4, 5, 8, 9, 11, 12})}
+              \cup {<<2, b, 0>> : b \in 15..18}
               \cup {<<2, a, b>> : a \in {1, 2, 4}, b \in {3, 4}}
 MkBodies(d, x) == IF x[1] = 0 THEN <<>>
                   ELSE IF x[3] = 0 THEN <<Bd(MJson, x[2], x[1] = 2)>>
@@ -234,8 +255,12 @@ Items == {[ref |-> r, also |-> a] : r \in BOOLEAN, a \in {<<>>, <<"get">>, <<"ge
 (*   schemaIn "schema" | "content" (3.x: parameter described by content: {application/json: {schema}})                                *)
 (*   body     "inline" | "ref" (3.x requestBody behind $ref; 2.0: the body parameter behind $ref)                                     *)
 SpellPlain == [params |-> "inline", schemaIn |-> "schema", body |-> "inline"]
-Spellings(d) == {[params |-> a, schemaIn |-> b, body |-> c] : a \in {"inline", "ref", "path"}, b \in (IF d = "2.0" THEN {"schema"} ELSE {"schema", "content"}),
-                                                                 c \in {"inline", "ref"}} \ {SpellPlain}
+AllSpellings(d) == {[params |-> a, schemaIn |-> b, body |-> c] : a \in {"inline", "ref", "path"}, b \in (IF d = "2.0" THEN {"schema"} ELSE {"schema", "content"}),
+                                                                    c \in {"inline", "ref"}} \ {SpellPlain}
+PairwiseSpellings(d) == {sp \in AllSpellings(d) : sp \in {[params |-> "ref", schemaIn |-> "schema", body |-> "inline"], [params |-> "path", schemaIn |-> "schema", body |-> "ref"],
+                                                          [params |-> "inline", schemaIn |-> "content", body |-> "inline"], [params |-> "inline", schemaIn |-> "schema", body |-> "ref"],
+                                                          [params |-> "ref", schemaIn |-> "content", body |-> "ref"], [params |-> "path", schemaIn |-> "content", body |-> "inline"]}}
+Spellings(d) == IF Rich \/ Family = "c01" THEN AllSpellings(d) ELSE PairwiseSpellings(d)
 Op(g, d, ps, bs, cf) == [kind |-> "op", group |-> g, dialect |-> d, params |-> ps, bodies |-> bs, cfg |-> cf, defs |-> NoRefDefs, item |-> ItemInline,
                          spell |-> SpellPlain]
 Cfg0 == [allow_x00 |-> TRUE, codec |-> "utf-8", security |-> FALSE]
@@ -294,11 +319,12 @@ IsOpDesc(x) ==
   \/ \E d \in OpDialects, h \in HeaderIdx \ {None3} : x = MkOp("header", d, None3, None3, h, None3, None3, Cfg0)
   \/ \E d \in OpDialects \cap D3, c \in CookieIdx \ {None3} : x = MkOp("cookie", d, None3, None3, None3, c, None3, Cfg0)
   \/ \E d \in OpDialects, b \in BodyIdxSet \ {None3} : x = MkOp("body", d, None3, None3, None3, None3, b, Cfg0)
-  \/ \E d \in OpDialects, q \in {q \in QueryIdx : q[1] # 0 /\ q[3] = 0 /\ q[2] \in PairLeaves}, b \in {b \in BodyIdxSet : b[1] = 2 /\ b[3] = 0} :
+  \/ \E d \in OpDialects, q \in {q \in QueryIdx : q[1] # 0 /\ q[3] = 0 /\ q[2] \in PairLeaves}, b \in {b \in BodyIdxSet : b[1] = 2 /\ b[3] = 0 /\ (Rich \/ b[2] \in {1, 2, 4, 12})} :
         x = MkOp("query+body", d, q, None3, None3, None3, b, Cfg0)
-  \/ \E d \in OpDialects, p \in {p \in PathIdx : p[1] # 0 /\ p[3] = 0}, h \in {h \in HeaderIdx : h[1] # 0 /\ h[3] = 0 /\ h[2] \in {1, 2, 6, 13}} :
+  \/ \E d \in OpDialects, p \in {p \in PathIdx : p[1] # 0 /\ p[3] = 0}, h \in {h \in HeaderIdx : h[1] # 0 /\ h[3] = 0 /\ h[2] \in {1, 2, 6, 13} /\ (Rich \/ h[1] = 2)} :
         x = MkOp("path+header", d, None3, p, h, None3, None3, Cfg0)
-  \/ \E d \in OpDialects \cap D3, q \in {q \in QueryIdx : q[1] = 2 /\ q[2] \in {1, 2} /\ q[3] \in {1, 6}}, h \in {h \in HeaderIdx : h[3] # 0}, c \in {c \in CookieIdx : c[1] = 2} :
+  \/ \E d \in OpDialects \cap D3, q \in {q \in QueryIdx : q[1] = 2 /\ q[2] \in {1, 2} /\ q[3] \in {1, 6} /\ (Rich \/ q[2] = 1)},
+                                     h \in {h \in HeaderIdx : h[3] # 0 /\ (Rich \/ h[2] = h[3] \/ h[3] = 2)}, c \in {c \in CookieIdx : c[1] = 2 /\ (Rich \/ c[2] # 2)} :
         x = MkOp("query+header+cookie", d, q, None3, h, c, None3, Cfg0)
   \/ \E d \in OpDialects \cap D3, h \in {h \in HeaderIdx : h[1] # 0 /\ h[2] \in {1, 6} /\ h[3] = 0}, c \in CookieIdx \ {None3} :      \* locations of different negatability
         x = MkOp("header+cookie", d, None3, None3, h, c, None3, Cfg0)
@@ -310,6 +336,15 @@ IsOpDesc(x) ==
   (* --- spellings: one operation with a parameter in every location and a body, written in every way the dialect allows --- *)
   \/ \E d \in OpDialects \cup {"2.0"} : \E sp \in Spellings(d) :
         x = [MkOp("spelling", d, <<2, 1, 0>>, <<2, 1, 0>>, <<1, 2, 0>>, IF d = "2.0" THEN None3 ELSE <<2, 1, 0>>, <<2, 1, 0>>, Cfg0) EXCEPT !.spell = sp]
+  \/ \E d \in OpDialects \cup {"2.0"} :       \* the same operation inside a Path Item given by $ref (lookup through the reference)
+        x = [MkOp("spelling", d, <<2, 1, 0>>, <<2, 1, 0>>, <<1, 2, 0>>, None3, <<2, 1, 0>>, Cfg0) EXCEPT !.item = [ref |-> TRUE, also |-> <<"get">>]]
+  \/ \E d \in OpDialects :      \* three optional parameters in one location (subset selection in the coverage phase) next to a required one
+        x = Op("many-optional", d, <<P("query", nQ1, TRUE, 1), P("query", nQ2, FALSE, 2), P("query", nKey, FALSE, 3), P("query", nC1, FALSE, 6)>>, <<>>, Cfg0)
+  \/ Family # "c01" /\ \E ts \in {<<"string", "integer", "number", "boolean", "null", "object", "array">>, <<"string", "number", "boolean", "null", "array">>} :
+        x = Op("type-array", "3.1", <<>>, <<[media |-> MJson, schema |-> [sk |-> "schema", type |-> ts, minLength |-> 2], required |-> TRUE]>>, Cfg0)
+  (* --- explicit values: the caller fixes q1, the rest of the location is generated (as_strategy(query={...})) --- *)
+  \/ Family \in {"c01", "c02"} /\ \E d \in OpDialects, a \in {1, 2}, b \in {1, 2} :
+        x = [MkOp("explicit", d, <<2, a, b>>, None3, None3, None3, None3, Cfg0) EXCEPT !.cfg = Cfg0 @@ [explicit |-> TRUE]]
   (* --- local references: parameter / body / nested schemas behind $ref (depth 1, 2, recursive below an optional property) --- *)
   \/ \E d \in OpDialects \cup {"2.0"}, j \in DOMAIN RefSchemas :
         x = [Op("ref", d, <<>>, <<[media |-> MJson, schema |-> RefSchemas[j], required |-> TRUE]>>, Cfg0) EXCEPT !.defs = RefDefs]
@@ -321,7 +356,7 @@ IsOpDesc(x) ==
         /\ x = Op("form", d, <<>>, <<[media |-> m, schema |-> BodyPool[b], required |-> r]>>, Cfg0)
   \/ \E d \in OpDialects \cup {"2.0"} : x = MkOp("readOnly-required", d, None3, None3, None3, None3, <<2, 14, 0>>, Cfg0)
   (* --- pattern x length: every catalogue pattern with the length keywords the implementation folds into its quantifier --- *)
-  \/ Family = "c01" /\ \E d \in {"3.0"}, loc \in {"query", "body"}, pi \in 1..12, l \in {<<1, 3>>, <<Absent, 2>>, <<2, Absent>>} :
+  \/ Family = "c01" /\ \E d \in {"3.0"}, loc \in {"query", "body"}, pi \in 1..15, l \in {<<1, 3>>, <<Absent, 2>>, <<2, Absent>>, <<2, 2>>, <<3, 5>>} :
         x = (IF loc = "body" THEN Op("pattern+length", d, <<>>, <<[media |-> MJson, schema |-> StrLeaf(l[1], l[2], pi, 0), required |-> TRUE]>>, Cfg0)
              ELSE Op("pattern+length", d, <<[loc |-> loc, name |-> nQ1, required |-> TRUE, schema |-> StrLeaf(l[1], l[2], pi, 0)]>>, <<>>, Cfg0))
   \/ Family # "c03o" /\ \E a \in {2, 6}, cf \in Cfgs : x = MkOp("config", "3.0", <<2, a, 0>>, None3, <<2, a, 0>>, None3, <<2, 1, 0>>, cf)
@@ -363,14 +398,19 @@ CoercedBoth(defs, lv, alt, name, sch) ==
   LET a == CoercedV(defs, ObjGet(lv, name), sch, "request")
       b == IF alt.t = "obj" /\ ObjHas(alt, name) THEN CoercedV(defs, ObjGet(alt, name), sch, "request") ELSE a
   IN IF a = b THEN a ELSE "U"
+(* a parameter described by `content: {application/json: ..}` carries JSON text: the projection has parsed it, the parsed value is
+   judged as a JSON value (no string coercion); text that is not JSON arrives as [t |-> "opaque"] => "U" *)
+ParamVerdict(op, lv, alt, q) ==
+  IF Fld(q, "json", FALSE) THEN ValidD(op.defs, q.schema, ObjGet(lv, q.name), "request", op.dia)
+  ELSE CoercedBoth(op.defs, lv, alt, q.name, q.schema)
 PartVerdict(op, lv, alt, loc) ==
   LET ps == ParamsAt(op, loc)
       has(n) == lv.t = "obj" /\ ObjHas(lv, n)
   IN IF lv.t \notin {"obj", "absent"} THEN "U"
      ELSE IF lv.t = "obj" /\ DupKeys(lv) THEN "U"
      ELSE IF \E i \in ps : op.params[i].required /\ ~has(op.params[i].name) THEN "F"            \* missing required parameter
-     ELSE IF \E i \in ps : has(op.params[i].name) /\ CoercedBoth(op.defs, lv, alt, op.params[i].name, op.params[i].schema) = "F" THEN "F"
-     ELSE IF \E i \in ps : has(op.params[i].name) /\ CoercedBoth(op.defs, lv, alt, op.params[i].name, op.params[i].schema) = "U" THEN "U"
+     ELSE IF \E i \in ps : has(op.params[i].name) /\ ParamVerdict(op, lv, alt, op.params[i]) = "F" THEN "F"
+     ELSE IF \E i \in ps : has(op.params[i].name) /\ ParamVerdict(op, lv, alt, op.params[i]) = "U" THEN "U"
      ELSE IF lv.t = "obj" /\ \E j \in DOMAIN lv.k : ~\E i \in ps : op.params[i].name = lv.k[j] THEN "U"   \* undeclared parameter: readings differ
      ELSE "T"
 (* the body: absent, or a value judged against the alternative of the case's media type *)
